@@ -389,6 +389,18 @@ impl Engine for WorldEngine {
   fn name(&self) -> &'static str {
     "world"
   }
+  fn crash_probes(&self, p: &str, tier: &str) -> Vec<String> {
+    match p {
+      "C16" => sdjwt::crash_probes(tier),
+      _ => Vec::new(),
+    }
+  }
+  fn run_crash_probe(&self, p: &str, name: &str) -> String {
+    match p {
+      "C16" => sdjwt::run_crash_probe(name),
+      _ => "no such probe".to_owned(),
+    }
+  }
   fn rule(&self, p: &str) -> String {
     match p {
       "C14" => ledger::RULE,
